@@ -133,6 +133,8 @@ Definition run_tuple (f : N) (a : list N) : list N :=
             N_of (arg a 0) (arg a 1) (arg a 2); Al_of (arg a 1)]
   | 351 => enc_t6 (Ok (Tuple (arg a 2) (arg a 1) (arg a 3) (arg a 0)))
   | 352 => [1; if is_prime (arg a 0) then 1 else 0]
+  (* [J; X0; n] -> v = Rand[y(X),0,2^20] for X = X0 .. X0+n-1 (to find tuples at degree-table boundaries) *)
+  | 354 => 1 :: map (fun i => Rand (Tuple_y (arg a 0) (arg a 1 + i)) 0 (2 ^ 20)) (rangeN (N.to_nat (arg a 2)))
   | _ => [0; 99]
   end.
 
